@@ -352,6 +352,38 @@ def heap_scenarios(out: Outcome, rng, n_random: int) -> None:
             out.mismatch(f"object graph after the scenario '{sc}': the heap model says '{got}', the implementation '{want}'", {"scenario": sc, "model": got, "impl": want})
 
 
+def shared_user_model_case(out: Outcome, rng) -> None:
+    """two (three) BOCD instances behind ONE configuration whose model is a user-defined class that updates its statistics IN PLACE (pre-allocated buffers, running
+    sums): interleaved updates, each instance must produce what it produces when run alone from a configuration of its own"""
+    import frouros.detectors.concept_drift as cd
+    from props.c02 import user_model_class
+    UM = user_model_class(True)
+    k = rng.choice([2, 3])
+    streams = [[rng.gauss(rng.choice([0.0, 3.0]), 1.0) for _ in range(rng.randint(20, 45))] for _ in range(k)]
+    rep = {"class": "BOCD", "model": "user-defined, updates its containers in place", "instances": k, "streams": streams, "kind": "shared configuration"}
+    try:
+        cfg = cd.BOCDConfig(model=UM(0.5, 2.0, 1.0), min_num_instances=8)
+        ds = [cd.BOCD(config=cfg) for _ in range(k)]
+        sched = [i for i, st in enumerate(streams) for _ in st]
+        rng.shuffle(sched)
+        pos, got = [0] * k, [[] for _ in range(k)]
+        for i in sched:
+            ds[i].update(value=streams[i][pos[i]])
+            pos[i] += 1
+            got[i].append((bool(ds[i].drift), ds[i].predicted_mean, ds[i].predicted_var))
+        for i in range(k):
+            alone = cd.BOCD(config=cd.BOCDConfig(model=UM(0.5, 2.0, 1.0), min_num_instances=8))
+            for t, v in enumerate(streams[i]):
+                alone.update(value=v)
+                if (bool(alone.drift), alone.predicted_mean, alone.predicted_var) != got[i][t]:
+                    out.violation(f"BOCD (user-defined model behind a shared configuration): instance {i} at its update {t + 1} gives {got[i][t]} interleaved with the others, "
+                                  f"{(bool(alone.drift), alone.predicted_mean, alone.predicted_var)} alone", rep)
+                    return
+    except Exception as e:  # noqa: BLE001
+        out.violation(f"BOCD instances behind a shared configuration with a user-defined model raised {type(e).__name__}: {e}", rep)
+    out.case({"shared_user_model": True, "k": k})
+
+
 def run(out: Outcome) -> None:
     rng = rng_for(out.seed, "C16")
     thorough = out.tier == "thorough"
@@ -383,6 +415,7 @@ def run(out: Outcome) -> None:
     for c in dets.CLASSES:
         for _ in range(3 if thorough else 1):
             sparse_observation_case(out, rng, c, runners)
+    shared_user_model_case(out, rng)
     interpreter_variants(out, rng, [c for c in dets.CLASSES if c != "KSWIN"])
     heap_scenarios(out, rng, 60 if thorough else 20)
     before = len(out.mismatches)
